@@ -338,12 +338,14 @@ Qed.
 
 (* A document element is written down as the tokens it consists of, with the
    structure made explicit.  An argument group carries the MergedSpacer token
-   that may precede it, its kind, its two delimiter tokens and its body. *)
+   that may precede it, its kind, its two delimiter tokens and its body.
+   An environment is  \ begin <name group> body \ end <name group>. *)
 Inductive doc :=
 | DLeaf (t : token)
 | DGroup (o : token) (body : list doc) (c : token)
 | DCmd (e n : token) (args : list arg)
 | DMath (k : mathkind) (o : token) (body : list doc) (c : token)
+| DEnv (e b : token) (ng : arg) (body : list doc) (e2 en : token) (ng2 : arg)
 with arg :=
 | Arg (sp : option token) (k : groupkind) (o : token) (body : list doc) (c : token).
 
@@ -354,6 +356,8 @@ Section doc_ind'.
   Hypothesis HGroup : forall o b c, Forall P b -> P (DGroup o b c).
   Hypothesis HCmd : forall e n args, Forall Q args -> P (DCmd e n args).
   Hypothesis HMath : forall k o b c, Forall P b -> P (DMath k o b c).
+  Hypothesis HEnv : forall e b ng body e2 en ng2,
+      Q ng -> Forall P body -> Q ng2 -> P (DEnv e b ng body e2 en ng2).
   Hypothesis HArg : forall sp k o b c, Forall P b -> Q (Arg sp k o b c).
 
   Fixpoint doc_ind' (d : doc) : P d :=
@@ -372,6 +376,8 @@ Section doc_ind'.
     | DGroup o b c => HGroup o b c (go b)
     | DCmd e n args => HCmd e n args (goa args)
     | DMath k o b c => HMath k o b c (go b)
+    | DEnv e b ng body e2 en ng2 =>
+      HEnv e b ng body e2 en ng2 (arg_ind' ng) (go body) (arg_ind' ng2)
     end
   with arg_ind' (a : arg) : Q a :=
     let fix go (l : list doc) : Forall P l :=
@@ -394,6 +400,8 @@ Fixpoint flat (d : doc) : list token :=
   | DGroup o b c => o :: concat (map flat b) ++ [c]
   | DCmd e n args => e :: n :: concat (map flat_arg args)
   | DMath _ o b c => o :: concat (map flat b) ++ [c]
+  | DEnv e b ng body e2 en ng2 =>
+    e :: b :: flat_arg ng ++ concat (map flat body) ++ e2 :: en :: flat_arg ng2
   end
 with flat_arg (a : arg) : list token :=
   match a with
@@ -410,22 +418,29 @@ Fixpoint tree (d : doc) : expr :=
   | DGroup o b _ => EGroup GBrace (map tree b) (tpos o)
   | DCmd e n args => ECmd (strip (ttext n)) (map tree_arg args) [] (tpos e)
   | DMath k o b _ => EMath k (map tree b) (tpos o)
+  | DEnv e _ ng body _ _ _ =>
+    ENamed (strip (arg_string (tree_arg ng))) [] (map tree body) (tpos e)
   end
 with tree_arg (a : arg) : expr :=
   match a with
   | Arg _ k o b _ => EGroup k (map tree b) (tpos o)
   end.
 
+(* the environment name as the reader computes it: the stripped string of
+   the first argument of \begin *)
+Definition env_name (ng : arg) : str := strip (arg_string (tree_arg ng)).
+
 (* --------------------------------------------------- well-formedness *)
 
 (* the loop that reads a body: what closes it *)
-Inductive ctx := CTop | CGroup (k : groupkind) | CMath (k : mathkind).
+Inductive ctx := CTop | CGroup (k : groupkind) | CMath (k : mathkind) | CEnv.
 
 Definition closes (x : ctx) (t : token) : bool :=
   match x with
   | CTop => false
   | CGroup k => is_group_end k t
   | CMath k => is_math_end k t
+  | CEnv => false
   end.
 
 Definition dhead (d : doc) : token :=
@@ -434,6 +449,7 @@ Definition dhead (d : doc) : token :=
   | DGroup o _ _ => o
   | DCmd e _ _ => e
   | DMath _ o _ _ => o
+  | DEnv e _ _ _ _ _ _ => e
   end.
 
 (* "after an optional MergedSpacer the next token is not a k" *)
@@ -456,6 +472,7 @@ Definition cmd_follow (args : list arg) (rest : list token) : bool :=
 Definition follows_ok (d : doc) (rest : list token) : bool :=
   match d with
   | DCmd _ _ args => cmd_follow args rest
+  | DEnv _ _ _ _ _ _ ng2 => cmd_follow [ng2] rest
   | _ => true
   end.
 
@@ -464,7 +481,7 @@ Fixpoint brackets_first (ks : list groupkind) : bool :=
   match ks with
   | [] => true
   | GBracket :: ks' => brackets_first ks'
-  | GBrace :: ks' => forallb (groupkind_beq GBrace) ks'
+  | GBrace :: ks' => forallb (fun k => groupkind_beq k GBrace) ks'
   end.
 
 Definition opens_group_kind (k : groupkind) (o : token) : bool :=
@@ -490,24 +507,44 @@ Definition seq_wf (W : doc -> bool) (x : ctx) : list doc -> list token -> bool :
       go ds' rest
     end.
 
-Fixpoint wf (d : doc) : bool :=
+Section WithSkip.
+(* SK: the environment names read verbatim (Tables.skip_env_names ++ the
+   user's list); an environment of the grammar must not have such a name *)
+Variable SK : list str.
+
+(* mm: the element is read in math mode (inside a math region; inherited by
+   argument groups and environment bodies, reset by a free-standing brace
+   group).  Recorded because the reader's treatment of \item depends on it;
+   no construct of the present grammar is sensitive to it. *)
+Fixpoint wf (mm : bool) (d : doc) {struct d} : bool :=
   match d with
   | DLeaf t => leaf_cat (tcat t)
   | DGroup o b c =>
-    is_tc TGroupBegin o && is_group_end GBrace c && seq_wf wf (CGroup GBrace) b [c]
+    is_tc TGroupBegin o && is_group_end GBrace c && seq_wf (wf false) (CGroup GBrace) b [c]
   | DCmd e n args =>
-    is_tc TEscape e && name_ok n && brackets_first (map arg_kind args) && forallb wf_arg args
+    is_tc TEscape e && name_ok n && brackets_first (map arg_kind args) &&
+    forallb (wf_arg mm) args
   | DMath k o b c =>
-    opens_math_kind k o && is_math_end k c && seq_wf wf (CMath k) b [c]
+    opens_math_kind k o && is_math_end k c && seq_wf (wf true) (CMath k) b [c]
+  | DEnv e b ng body e2 en ng2 =>
+    is_tc TEscape e && str_eqb (ttext b) s_begin &&
+    wf_arg mm ng && is_brace_arg ng &&
+    negb (mem_str (env_name ng) Tables.math_env_names) && negb (mem_str (env_name ng) SK) &&
+    cmd_follow [ng] (flat_list body ++ [e2]) &&
+    seq_wf (wf mm) CEnv body [e2; en] &&
+    is_tc TEscape e2 && str_eqb (ttext en) s_end &&
+    wf_arg mm ng2 && is_brace_arg ng2 &&
+    str_eqb (arg_string (tree_arg ng2)) (env_name ng)
   end
-with wf_arg (a : arg) : bool :=
+with wf_arg (mm : bool) (a : arg) {struct a} : bool :=
   match a with
   | Arg sp k o b c =>
     match sp with Some s => is_tc TMergedSpacer s | None => true end &&
-    opens_group_kind k o && is_group_end k c && seq_wf wf (CGroup k) b [c]
+    opens_group_kind k o && is_group_end k c && seq_wf (wf mm) (CGroup k) b [c]
   end.
 
-Definition wf_seq (x : ctx) (ds : list doc) (rest : list token) : bool := seq_wf wf x ds rest.
+Definition wf_seq (mm : bool) (x : ctx) (ds : list doc) (rest : list token) : bool :=
+  seq_wf (wf mm) x ds rest.
 
 (* ------------------------------------------------- equations, list facts *)
 
@@ -529,25 +566,42 @@ Lemma flat_cmd e n args : flat (DCmd e n args) = e :: n :: flat_args args.
 Proof. reflexivity. Qed.
 Lemma flat_math k o b c : flat (DMath k o b c) = o :: flat_list b ++ [c].
 Proof. reflexivity. Qed.
+Lemma flat_env e b ng body e2 en ng2 :
+  flat (DEnv e b ng body e2 en ng2) =
+  e :: b :: flat_arg ng ++ flat_list body ++ e2 :: en :: flat_arg ng2.
+Proof. reflexivity. Qed.
 Lemma flat_arg_eq sp k o b c :
   flat_arg (Arg sp k o b c) = opt_tok sp ++ o :: flat_list b ++ [c].
 Proof. reflexivity. Qed.
 
-Lemma wf_group o b c :
-  wf (DGroup o b c) =
-  is_tc TGroupBegin o && is_group_end GBrace c && seq_wf wf (CGroup GBrace) b [c].
+Lemma wf_group mm o b c :
+  wf mm (DGroup o b c) =
+  is_tc TGroupBegin o && is_group_end GBrace c && seq_wf (wf false) (CGroup GBrace) b [c].
 Proof. reflexivity. Qed.
-Lemma wf_cmd e n args :
-  wf (DCmd e n args) =
-  is_tc TEscape e && name_ok n && brackets_first (map arg_kind args) && forallb wf_arg args.
+Lemma wf_cmd mm e n args :
+  wf mm (DCmd e n args) =
+  is_tc TEscape e && name_ok n && brackets_first (map arg_kind args) &&
+  forallb (wf_arg mm) args.
 Proof. reflexivity. Qed.
-Lemma wf_math k o b c :
-  wf (DMath k o b c) = opens_math_kind k o && is_math_end k c && seq_wf wf (CMath k) b [c].
+Lemma wf_math mm k o b c :
+  wf mm (DMath k o b c) =
+  opens_math_kind k o && is_math_end k c && seq_wf (wf true) (CMath k) b [c].
 Proof. reflexivity. Qed.
-Lemma wf_arg_eq sp k o b c :
-  wf_arg (Arg sp k o b c) =
+Lemma wf_env mm e b ng body e2 en ng2 :
+  wf mm (DEnv e b ng body e2 en ng2) =
+  is_tc TEscape e && str_eqb (ttext b) s_begin &&
+  wf_arg mm ng && is_brace_arg ng &&
+  negb (mem_str (env_name ng) Tables.math_env_names) && negb (mem_str (env_name ng) SK) &&
+  cmd_follow [ng] (flat_list body ++ [e2]) &&
+  seq_wf (wf mm) CEnv body [e2; en] &&
+  is_tc TEscape e2 && str_eqb (ttext en) s_end &&
+  wf_arg mm ng2 && is_brace_arg ng2 &&
+  str_eqb (arg_string (tree_arg ng2)) (env_name ng).
+Proof. reflexivity. Qed.
+Lemma wf_arg_eq mm sp k o b c :
+  wf_arg mm (Arg sp k o b c) =
   match sp with Some s => is_tc TMergedSpacer s | None => true end &&
-  opens_group_kind k o && is_group_end k c && seq_wf wf (CGroup k) b [c].
+  opens_group_kind k o && is_group_end k c && seq_wf (wf mm) (CGroup k) b [c].
 Proof. reflexivity. Qed.
 
 Lemma flat_head d : exists tl, flat d = dhead d :: tl.
@@ -607,9 +661,9 @@ Qed.
 
 (* --------------------------------- the follow condition sees two tokens *)
 
-Lemma head_after_spacer_ext l c r :
+Lemma head_after_spacer_ext l c tl r :
   is_tc TMergedSpacer c = false ->
-  head_after_spacer (l ++ [c]) = head_after_spacer (l ++ c :: r).
+  head_after_spacer (l ++ c :: tl) = head_after_spacer (l ++ c :: tl ++ r).
 Proof.
   intro Hc. unfold head_after_spacer, read_spacer.
   destruct l as [|x [|y l']]; simpl.
@@ -618,25 +672,32 @@ Proof.
   - destruct (is_tc TMergedSpacer x); reflexivity.
 Qed.
 
-Lemma follows_ok_ext d l c r :
+Lemma cmd_follow_ext args l c tl r :
   is_tc TMergedSpacer c = false ->
-  follows_ok d (l ++ [c]) = follows_ok d (l ++ c :: r).
+  cmd_follow args (l ++ c :: tl) = cmd_follow args (l ++ c :: tl ++ r).
 Proof.
-  intro Hc. destruct d; try reflexivity. simpl. unfold cmd_follow, stopsb.
-  rewrite <- !(head_after_spacer_ext l c r Hc).
-  replace (head_notb TBracketBegin (l ++ c :: r)) with (head_notb TBracketBegin (l ++ [c]))
-    by (destruct l; reflexivity).
+  intro Hc. unfold cmd_follow, stopsb.
+  rewrite <- !(head_after_spacer_ext l c tl r Hc).
+  replace (head_notb TBracketBegin (l ++ c :: tl ++ r))
+    with (head_notb TBracketBegin (l ++ c :: tl)) by (destruct l; reflexivity).
   reflexivity.
 Qed.
 
-Lemma seq_wf_ext W x ds c r :
+Lemma follows_ok_ext d l c tl r :
   is_tc TMergedSpacer c = false ->
-  seq_wf W x ds [c] = true -> seq_wf W x ds (c :: r) = true.
+  follows_ok d (l ++ c :: tl) = follows_ok d (l ++ c :: tl ++ r).
+Proof.
+  intro Hc. destruct d; try reflexivity; simpl; apply cmd_follow_ext; exact Hc.
+Qed.
+
+Lemma seq_wf_ext W x ds c tl r :
+  is_tc TMergedSpacer c = false ->
+  seq_wf W x ds (c :: tl) = true -> seq_wf W x ds (c :: tl ++ r) = true.
 Proof.
   intro Hc. induction ds as [|d ds IH]; [reflexivity|].
   rewrite !seq_wf_cons. intro H.
   apply andb_true_iff in H. destruct H as [H H4].
-  rewrite <- (follows_ok_ext d (flat_list ds) c r Hc), H, (IH H4). reflexivity.
+  rewrite <- (follows_ok_ext d (flat_list ds) c tl r Hc), H, (IH H4). reflexivity.
 Qed.
 
 (* ====================================================================== *)
@@ -648,7 +709,8 @@ Definition Reads {A} (F : nat -> res A) (r : res A) : Prop :=
   exists f0, forall f, (f0 <= f)%nat -> F f = r.
 
 Definition PPd (d : doc) : Prop := forall skip strict m rest,
-  wf d = true -> follows_ok d rest = true ->
+  mode_is_special m = false -> sub_skip SK skip ->
+  wf (mode_is_math m) d = true -> follows_ok d rest = true ->
   Reads (fun f => read_expr f skip strict m (flat d ++ rest)) (Ok (tree d, rest)).
 
 Definition arg_open (a : arg) : token := match a with Arg _ _ o _ _ => o end.
@@ -656,17 +718,21 @@ Definition arg_inner (a : arg) : list token :=
   match a with Arg _ _ _ b c => flat_list b ++ [c] end.
 
 Definition PPa (a : arg) : Prop := forall strict m rest,
-  wf_arg a = true ->
+  mode_is_special m = false -> wf_arg (mode_is_math m) a = true ->
   Reads (fun f => read_arg f (arg_open a) strict m (arg_inner a ++ rest))
         (Ok (tree_arg a, rest)).
 
+Lemma sub_skip_nil : sub_skip SK [].
+Proof. intros n H. unfold mem_str in H. simpl in H. discriminate H. Qed.
+
 (* the body of a group: elements one by one, then the closer *)
 Lemma seq_group ds : Forall PPd ds -> forall k pos strict m acc c rest,
-  seq_wf wf (CGroup k) ds (c :: rest) = true -> is_group_end k c = true ->
+  mode_is_special m = false ->
+  seq_wf (wf (mode_is_math m)) (CGroup k) ds (c :: rest) = true -> is_group_end k c = true ->
   Reads (fun f => read_arg_loop f k pos strict m acc (flat_list ds ++ c :: rest))
         (Ok (EGroup k (acc ++ map tree ds) pos, rest)).
 Proof.
-  induction 1 as [|d ds Hd Hds IH]; intros k pos strict m acc c rest Hwf Hc.
+  induction 1 as [|d ds Hd Hds IH]; intros k pos strict m acc c rest Hm Hwf Hc.
   - exists 1%nat. intros f Hf. destruct f as [|f]; [lia|].
     change (flat_list [] ++ c :: rest) with (c :: rest). simpl map. rewrite app_nil_r.
     apply C09_group_closes_on_own_delimiter. exact Hc.
@@ -676,8 +742,8 @@ Proof.
     apply andb_true_iff in Hwf. destruct Hwf as [H1 H2].
     apply negb_true_iff in H1. cbn [closes] in H1.
     destruct (flat_head d) as [tl Htl].
-    destruct (Hd [] strict m (flat_list ds ++ c :: rest) H2 H3) as [f1 F1].
-    destruct (IH k pos strict m (acc ++ [tree d]) c rest H4 Hc) as [f2 F2].
+    destruct (Hd [] strict m (flat_list ds ++ c :: rest) Hm sub_skip_nil H2 H3) as [f1 F1].
+    destruct (IH k pos strict m (acc ++ [tree d]) c rest Hm H4 Hc) as [f2 F2].
     exists (S (Nat.max f1 f2)). intros f Hf. destruct f as [|f]; [lia|].
     rewrite flat_list_cons, <- app_assoc.
     assert (E1 := F1 f ltac:(lia)). cbv beta in E1.
@@ -688,7 +754,7 @@ Qed.
 
 (* the body of a math region *)
 Lemma seq_math ds : Forall PPd ds -> forall k pos strict acc c rest,
-  seq_wf wf (CMath k) ds (c :: rest) = true -> is_math_end k c = true ->
+  seq_wf (wf true) (CMath k) ds (c :: rest) = true -> is_math_end k c = true ->
   Reads (fun f => read_math_loop f k pos strict acc (flat_list ds ++ c :: rest))
         (Ok (EMath k (acc ++ map tree ds) pos, rest)).
 Proof.
@@ -702,7 +768,8 @@ Proof.
     apply andb_true_iff in Hwf. destruct Hwf as [H1 H2].
     apply negb_true_iff in H1. cbn [closes] in H1.
     destruct (flat_head d) as [tl Htl].
-    destruct (Hd [] strict MMath (flat_list ds ++ c :: rest) H2 H3) as [f1 F1].
+    destruct (Hd [] strict MMath (flat_list ds ++ c :: rest) eq_refl sub_skip_nil H2 H3)
+      as [f1 F1].
     destruct (IH k pos strict (acc ++ [tree d]) c rest H4 Hc) as [f2 F2].
     exists (S (Nat.max f1 f2)). intros f Hf. destruct f as [|f]; [lia|].
     rewrite flat_list_cons, <- app_assoc.
@@ -712,16 +779,26 @@ Proof.
     rewrite F2 by lia. rewrite <- app_assoc. reflexivity.
 Qed.
 
+Lemma wf_arg_parts mm sp k o b c :
+  wf_arg mm (Arg sp k o b c) = true ->
+  match sp with Some s => is_tc TMergedSpacer s | None => true end = true /\
+  opens_group_kind k o = true /\ is_group_end k c = true /\
+  seq_wf (wf mm) (CGroup k) b [c] = true.
+Proof.
+  rewrite wf_arg_eq. intro Hwf.
+  apply andb_true_iff in Hwf. destruct Hwf as [Hwf H4].
+  apply andb_true_iff in Hwf. destruct Hwf as [Hwf H3].
+  apply andb_true_iff in Hwf. destruct Hwf as [H1 H2]. auto.
+Qed.
+
 (* one argument group, from its opening token *)
 Lemma arg_group sp k o b c : Forall PPd b -> PPa (Arg sp k o b c).
 Proof.
-  intros Hb strict m rest Hwf. rewrite wf_arg_eq in Hwf.
-  apply andb_true_iff in Hwf. destruct Hwf as [Hwf H4].
-  apply andb_true_iff in Hwf. destruct Hwf as [Hwf H3].
-  apply andb_true_iff in Hwf. destruct Hwf as [H1 H2].
+  intros Hb strict m rest Hm Hwf.
+  destruct (wf_arg_parts _ _ _ _ _ _ Hwf) as (H1 & H2 & H3 & H4).
   apply opens_group_kind_spec in H2. destruct H2 as (Hk & _).
-  pose proof (seq_wf_ext wf (CGroup k) b c rest (group_end_not_spacer k c H3) H4) as H4'.
-  destruct (seq_group b Hb k (tpos o) strict m [] c rest H4' H3) as [f1 F1].
+  pose proof (seq_wf_ext _ (CGroup k) b c [] rest (group_end_not_spacer k c H3) H4) as H4'.
+  destruct (seq_group b Hb k (tpos o) strict m [] c rest Hm H4' H3) as [f1 F1].
   exists (S f1). intros f Hf. destruct f as [|f]; [lia|].
   cbn [arg_open arg_inner tree_arg]. rewrite <- app_assoc. cbn [app].
   cbn [read_arg]. rewrite Hk. apply F1. lia.
@@ -767,25 +844,16 @@ Proof.
   reflexivity.
 Qed.
 
-Lemma wf_arg_parts sp k o b c :
-  wf_arg (Arg sp k o b c) = true ->
-  match sp with Some s => is_tc TMergedSpacer s | None => true end = true /\
-  opens_group_kind k o = true /\ is_group_end k c = true /\ seq_wf wf (CGroup k) b [c] = true.
-Proof.
-  rewrite wf_arg_eq. intro Hwf.
-  apply andb_true_iff in Hwf. destruct Hwf as [Hwf H4].
-  apply andb_true_iff in Hwf. destruct Hwf as [Hwf H3].
-  apply andb_true_iff in Hwf. destruct Hwf as [H1 H2]. auto.
-Qed.
-
 (* the bracket loop: all of `bs`, then stop *)
 Lemma opt_loop bs : Forall PPa bs -> forall acc nopt strict m tail,
-  (nopt < 0)%Z -> forallb wf_arg bs = true -> forallb is_bracket_arg bs = true ->
+  mode_is_special m = false ->
+  (nopt < 0)%Z -> forallb (wf_arg (mode_is_math m)) bs = true ->
+  forallb is_bracket_arg bs = true ->
   stopsb TBracketBegin tail = true ->
   Reads (fun f => read_arg_optional f acc nopt strict m (flat_args bs ++ tail))
         (Ok ((acc ++ map tree_arg bs, (nopt - Z.of_nat (length bs))%Z), tail)).
 Proof.
-  induction 1 as [|a bs Ha Hbs IH]; intros acc nopt strict m tail Hn Hw Hk Hs.
+  induction 1 as [|a bs Ha Hbs IH]; intros acc nopt strict m tail Hm Hn Hw Hk Hs.
   - exists 1%nat. intros f Hf. destruct f as [|f]; [lia|].
     change (flat_args [] ++ tail) with tail. simpl map. simpl length.
     rewrite app_nil_r, Z.sub_0_r.
@@ -795,11 +863,11 @@ Proof.
     apply andb_true_iff in Hk. destruct Hk as [Hka Hk].
     destruct a as [sp k o b c].
     unfold is_bracket_arg in Hka. cbn [arg_kind] in Hka. apply groupkind_eqb_eq in Hka. subst k.
-    destruct (wf_arg_parts _ _ _ _ _ Hwa) as (W1 & W2 & W3 & W4).
+    destruct (wf_arg_parts _ _ _ _ _ _ Hwa) as (W1 & W2 & W3 & W4).
     apply opens_group_kind_spec in W2. destruct W2 as (_ & _ & Ho & Hob).
-    destruct (Ha strict m (flat_args bs ++ tail) Hwa) as [f1 F1].
+    destruct (Ha strict m (flat_args bs ++ tail) Hm Hwa) as [f1 F1].
     destruct (IH (acc ++ [tree_arg (Arg sp GBracket o b c)]) (nopt - 1)%Z strict m tail
-                 ltac:(lia) Hw Hk Hs) as [f2 F2].
+                 Hm ltac:(lia) Hw Hk Hs) as [f2 F2].
     exists (S (Nat.max f1 f2)). intros f Hf. destruct f as [|f]; [lia|].
     rewrite flat_args_cons, <- app_assoc.
     rewrite (C09_attach_step_opt f acc nopt strict m _ o
@@ -818,12 +886,14 @@ Qed.
 
 (* the brace loop *)
 Lemma req_loop cs : Forall PPa cs -> forall acc nreq strict m tail,
-  (nreq < 0)%Z -> forallb wf_arg cs = true -> forallb is_brace_arg cs = true ->
+  mode_is_special m = false ->
+  (nreq < 0)%Z -> forallb (wf_arg (mode_is_math m)) cs = true ->
+  forallb is_brace_arg cs = true ->
   stopsb TGroupBegin tail = true ->
   Reads (fun f => read_arg_required f acc nreq strict m (flat_args cs ++ tail))
         (Ok ((acc ++ map tree_arg cs, (nreq - Z.of_nat (length cs))%Z), tail)).
 Proof.
-  induction 1 as [|a cs Ha Hcs IH]; intros acc nreq strict m tail Hn Hw Hk Hs.
+  induction 1 as [|a cs Ha Hcs IH]; intros acc nreq strict m tail Hm Hn Hw Hk Hs.
   - exists 1%nat. intros f Hf. destruct f as [|f]; [lia|].
     change (flat_args [] ++ tail) with tail. simpl map. simpl length.
     rewrite app_nil_r, Z.sub_0_r.
@@ -833,11 +903,11 @@ Proof.
     apply andb_true_iff in Hk. destruct Hk as [Hka Hk].
     destruct a as [sp k o b c].
     unfold is_brace_arg in Hka. cbn [arg_kind] in Hka. apply groupkind_eqb_eq in Hka. subst k.
-    destruct (wf_arg_parts _ _ _ _ _ Hwa) as (W1 & W2 & W3 & W4).
+    destruct (wf_arg_parts _ _ _ _ _ _ Hwa) as (W1 & W2 & W3 & W4).
     apply opens_group_kind_spec in W2. destruct W2 as (_ & _ & Ho & Hob).
-    destruct (Ha strict m (flat_args cs ++ tail) Hwa) as [f1 F1].
+    destruct (Ha strict m (flat_args cs ++ tail) Hm Hwa) as [f1 F1].
     destruct (IH (acc ++ [tree_arg (Arg sp GBrace o b c)]) (nreq - 1)%Z strict m tail
-                 ltac:(lia) Hw Hk Hs) as [f2 F2].
+                 Hm ltac:(lia) Hw Hk Hs) as [f2 F2].
     exists (S (Nat.max f1 f2)). intros f Hf. destruct f as [|f]; [lia|].
     rewrite flat_args_cons, <- app_assoc.
     rewrite (C09_attach_step_req f acc nreq strict m _ o
@@ -874,13 +944,14 @@ Qed.
 (* read_args with the "as many as there are" counts: first pass brackets,
    first pass braces, and the two second passes find nothing *)
 Lemma args_read bs cs : Forall PPa bs -> Forall PPa cs -> forall strict m rest,
-  forallb wf_arg bs = true -> forallb is_bracket_arg bs = true ->
-  forallb wf_arg cs = true -> forallb is_brace_arg cs = true ->
+  mode_is_special m = false ->
+  forallb (wf_arg (mode_is_math m)) bs = true -> forallb is_bracket_arg bs = true ->
+  forallb (wf_arg (mode_is_math m)) cs = true -> forallb is_brace_arg cs = true ->
   cmd_follow (bs ++ cs) rest = true ->
   Reads (fun f => read_args f (-1) (-1) strict m (flat_args (bs ++ cs) ++ rest))
         (Ok (map tree_arg (bs ++ cs), rest)).
 Proof.
-  intros Hbs Hcs strict m rest Wb Kb Wc Kc Hfol.
+  intros Hbs Hcs strict m rest Hm Wb Kb Wc Kc Hfol.
   unfold cmd_follow in Hfol. apply andb_true_iff in Hfol. destruct Hfol as [Fg Fb].
   rewrite existsb_app, (all_bracket_no_brace bs Kb), orb_false_l in Fb.
   (* the bracket loop stops in front of the brace groups / the rest *)
@@ -891,7 +962,7 @@ Proof.
       apply andb_true_iff in Wc. destruct Wc as [Wa _].
       apply andb_true_iff in Kc. destruct Kc as [Ka _].
       unfold is_brace_arg in Ka. cbn [arg_kind] in Ka. apply groupkind_eqb_eq in Ka. subst k.
-      destruct (wf_arg_parts _ _ _ _ _ Wa) as (W1 & W2 & _).
+      destruct (wf_arg_parts _ _ _ _ _ _ Wa) as (W1 & W2 & _).
       apply opens_group_kind_spec in W2. destruct W2 as (_ & _ & Ho & Hob).
       unfold stopsb. rewrite flat_args_cons, <- app_assoc.
       rewrite (head_after_spacer_arg sp GBrace o b c _ W1 Ho).
@@ -903,10 +974,10 @@ Proof.
       cbn [existsb] in Fb. rewrite Ka in Fb. exact Fb. }
   assert (H4 : head_notb TGroupBegin rest = true).
   { apply stopsb_head; [discriminate | exact Fg]. }
-  destruct (opt_loop bs Hbs [] (-1)%Z strict m (flat_args cs ++ rest) ltac:(lia) Wb Kb S1)
+  destruct (opt_loop bs Hbs [] (-1)%Z strict m (flat_args cs ++ rest) Hm ltac:(lia) Wb Kb S1)
     as [f1 F1].
   destruct (req_loop cs Hcs ([] ++ map tree_arg bs) (-1)%Z strict m rest
-                     ltac:(lia) Wc Kc Fg) as [f2 F2].
+                     Hm ltac:(lia) Wc Kc Fg) as [f2 F2].
   exists (S (Nat.max f1 f2)). intros f Hf. destruct f as [|f]; [lia|].
   rewrite C09_read_args_passes by reflexivity.
   rewrite flat_args_app, <- app_assoc.
@@ -930,8 +1001,7 @@ Proof.
       cbn [forallb]. unfold is_brace_arg at 1. rewrite Ek. cbn [groupkind_beq andb].
       clear IH Ek. induction args as [|b args IH]; [reflexivity|].
       cbn [map forallb] in H |- *. apply andb_true_iff in H. destruct H as [Hb H].
-      rewrite (IH H), andb_true_r. unfold is_brace_arg. apply groupkind_eqb_eq in Hb.
-      rewrite <- Hb. reflexivity.
+      rewrite (IH H), andb_true_r. exact Hb.
     + destruct (IH H) as (bs & cs & -> & Hb & Hc).
       exists (a :: bs), cs. split; [reflexivity|]. split; [|exact Hc].
       cbn [forallb]. rewrite Hb, andb_true_r. unfold is_bracket_arg. rewrite Ek. reflexivity.
@@ -966,16 +1036,225 @@ Proof.
   rewrite Hs, Hm. reflexivity.
 Qed.
 
+(* the command part of a plain-named command: the name and all of its
+   arguments; used for \name, \begin and \end alike *)
+Lemma cmd_head_read n bs cs : Forall PPa bs -> Forall PPa cs -> forall strict m rest,
+  mode_is_special m = false ->
+  signature_of (ttext n) = ((-1)%Z, (-1)%Z) ->
+  mem_str (ttext n) Tables.special_commands = false ->
+  forallb (wf_arg (mode_is_math m)) bs = true -> forallb is_bracket_arg bs = true ->
+  forallb (wf_arg (mode_is_math m)) cs = true -> forallb is_brace_arg cs = true ->
+  cmd_follow (bs ++ cs) rest = true ->
+  Reads (fun f => read_command f (-1) (-1) 0 strict m (n :: flat_args (bs ++ cs) ++ rest))
+        (Ok ((ttext n, map tree_arg (bs ++ cs)), rest)).
+Proof.
+  intros Hbs Hcs strict m rest Hm Hsig Hsp Wb Kb Wc Kc Hfol.
+  destruct (args_read bs cs Hbs Hcs strict m rest Hm Wb Kb Wc Kc Hfol) as [f1 F1].
+  exists (S f1). intros f Hf. destruct f as [|f]; [lia|].
+  rewrite (read_command_plain f strict m n _ Hsig Hsp), F1 by lia. reflexivity.
+Qed.
+
 Lemma read_expr_plain_cmd f skip strict m e n src args src1 :
   is_tc TEscape e = true -> name_ok n = true ->
-  read_args f (-1) (-1) strict m src = Ok (args, src1) ->
-  read_expr (S (S f)) skip strict m (e :: n :: src) =
+  read_command f (-1) (-1) 0 strict m (n :: src) = Ok ((ttext n, args), src1) ->
+  read_expr (S f) skip strict m (e :: n :: src) =
   Ok (ECmd (strip (ttext n)) args [] (tpos e), src1).
 Proof.
   intros He Hn Ha. destruct (name_ok_parts n Hn) as (Hs & Hi & Hb & _ & Hm).
-  cbn [read_expr]. rewrite (escape_not_math_begin e He), He.
-  rewrite (read_command_plain f strict m n src Hs Hm), Ha. cbn [bind].
+  cbn [read_expr]. rewrite (escape_not_math_begin e He), He, Ha. cbn [bind].
   rewrite Hi, Hb. reflexivity.
+Qed.
+
+(* ------------------------------------------------------- environments *)
+
+(* read_command with one token to skip is read_command on the tail *)
+Lemma read_command_skip1 f nreq nopt strict m e src :
+  read_command f nreq nopt 1 strict m (e :: src) = read_command f nreq nopt 0 strict m src.
+Proof.
+  destruct f as [|f]; [reflexivity|]. cbn [read_command].
+  change (skipn 1 (e :: src)) with src. change (skipn 0 src) with src.
+  assert (H1 : (length (e :: src) <? 1)%nat = false) by (apply Nat.ltb_ge; simpl; lia).
+  assert (H2 : (length src <? 0)%nat = false) by (apply Nat.ltb_ge; lia).
+  rewrite H1, H2. reflexivity.
+Qed.
+
+(* "a peek returns what the real read returns": if read_expr succeeds on an
+   escape, the look-ahead of read_env / read_item on the same tokens succeeds
+   and reports the token after the escape as the command name *)
+Lemma peek_of_read_expr f skip strict m e n src r :
+  is_tc TEscape e = true ->
+  read_expr (S f) skip strict m (e :: n :: src) = Ok r ->
+  exists args src1,
+    read_command f (-1) (-1) 1 strict m (e :: n :: src) = Ok ((ttext n, args), src1).
+Proof.
+  intros He H. cbn [read_expr] in H. rewrite (escape_not_math_begin e He), He in H.
+  apply bind_ok in H. destruct H as ([[name args] src1] & Hc & _).
+  pose proof (read_command_name _ _ _ _ _ _ _ _ _ _ Hc) as Hn. subst name.
+  exists args, src1. rewrite read_command_skip1. exact Hc.
+Qed.
+
+(* one layer of the environment loop *)
+Lemma env_loop_step_other f name args pos skip strict m acc t l :
+  is_tc TEscape t = false ->
+  read_env_loop (S f) name args pos skip strict m acc (t :: l) =
+  bind (read_expr f skip strict m (t :: l)) (fun '(e, src1) =>
+    read_env_loop f name args pos skip strict m (acc ++ [e]) src1).
+Proof. intro H. simpl. rewrite H. reflexivity. Qed.
+
+Lemma env_loop_step_esc f name args pos skip strict m acc t l cname cargs crest :
+  is_tc TEscape t = true ->
+  read_command f (-1) (-1) 1 strict m (t :: l) = Ok ((cname, cargs), crest) ->
+  str_eqb cname s_end = false ->
+  read_env_loop (S f) name args pos skip strict m acc (t :: l) =
+  bind (read_expr f skip strict m (t :: l)) (fun '(e, src1) =>
+    read_env_loop f name args pos skip strict m (acc ++ [e]) src1).
+Proof. intros H Hc Hn. simpl. rewrite H, Hc. cbn [bind]. rewrite Hn. reflexivity. Qed.
+
+Lemma env_loop_end f name args pos skip strict m acc t l cname a0 cargs crest c src3 g rest :
+  is_tc TEscape t = true ->
+  read_command f (-1) (-1) 1 strict m (t :: l) = Ok ((cname, a0 :: cargs), crest) ->
+  str_eqb cname s_end = true -> str_eqb (arg_string a0) name = true ->
+  snd (read_spacer (skipn 2 (t :: l))) = c :: src3 ->
+  read_arg f c strict m src3 = Ok (g, rest) ->
+  read_env_loop (S f) name args pos skip strict m acc (t :: l) =
+  Ok (ENamed name args acc pos, rest).
+Proof.
+  intros H Hc Hn Ha Hs Hg. simpl. rewrite H, Hc. cbn [bind]. rewrite Hn, Ha. cbn [negb].
+  destruct (read_spacer (skipn 2 (t :: l))) as [b0 src2]. cbn [snd] in Hs. subst src2.
+  rewrite Hg. reflexivity.
+Qed.
+
+(* an element that starts with an escape is a command or an environment:
+   its second token is the name, and the name is not `end` *)
+Lemma escape_head_shape mm d :
+  wf mm d = true -> is_tc TEscape (dhead d) = true ->
+  exists n tl, flat d = dhead d :: n :: tl /\ str_eqb (ttext n) s_end = false.
+Proof.
+  destruct d as [t|o b c|e n args|k o b c|e b ng body e2 en ng2]; intros Hwf He; cbn [dhead] in He.
+  - exfalso. cbn [wf] in Hwf. apply is_tc_true in He. rewrite He in Hwf. discriminate Hwf.
+  - exfalso. rewrite wf_group in Hwf.
+    apply andb_true_iff in Hwf. destruct Hwf as [Hwf _].
+    apply andb_true_iff in Hwf. destruct Hwf as [H1 _].
+    rewrite (is_tc_excl _ TEscape _ H1) in He; discriminate.
+  - rewrite wf_cmd in Hwf.
+    apply andb_true_iff in Hwf. destruct Hwf as [Hwf _].
+    apply andb_true_iff in Hwf. destruct Hwf as [Hwf _].
+    apply andb_true_iff in Hwf. destruct Hwf as [_ H2].
+    destruct (name_ok_parts n H2) as (_ & _ & _ & Hend & _).
+    exists n, (flat_args args). split; [reflexivity | exact Hend].
+  - exfalso. rewrite wf_math in Hwf.
+    apply andb_true_iff in Hwf. destruct Hwf as [Hwf _].
+    apply andb_true_iff in Hwf. destruct Hwf as [H1 _].
+    apply opens_math_kind_spec in H1. destruct H1 as [H1 _].
+    rewrite (escape_not_math_begin o He) in H1. discriminate H1.
+  - rewrite wf_env in Hwf.
+    do 11 (apply andb_true_iff in Hwf; destruct Hwf as [Hwf _]).
+    apply andb_true_iff in Hwf. destruct Hwf as [_ Hb]. apply str_eqb_eq in Hb.
+    exists b, (flat_arg ng ++ flat_list body ++ e2 :: en :: flat_arg ng2).
+    split; [reflexivity|]. rewrite Hb. reflexivity.
+Qed.
+
+Lemma end_facts en :
+  str_eqb (ttext en) s_end = true ->
+  signature_of (ttext en) = ((-1)%Z, (-1)%Z) /\
+  mem_str (ttext en) Tables.special_commands = false.
+Proof. intro H. apply str_eqb_eq in H. rewrite H. split; vm_compute; reflexivity. Qed.
+
+Lemma begin_facts b :
+  str_eqb (ttext b) s_begin = true ->
+  signature_of (ttext b) = ((-1)%Z, (-1)%Z) /\
+  mem_str (ttext b) Tables.special_commands = false /\ ttext b = s_begin.
+Proof.
+  intro H. apply str_eqb_eq in H. rewrite H. repeat split; vm_compute; reflexivity.
+Qed.
+
+(* the body of an environment: elements one by one (each escape is peeked
+   at first), then  \end <name group> *)
+Lemma seq_env ds : Forall PPd ds ->
+  forall name args pos skip strict m acc e2 en ng2 rest,
+  mode_is_special m = false -> sub_skip SK skip ->
+  seq_wf (wf (mode_is_math m)) CEnv ds (e2 :: en :: flat_arg ng2 ++ rest) = true ->
+  PPa ng2 ->
+  is_tc TEscape e2 = true -> str_eqb (ttext en) s_end = true ->
+  wf_arg (mode_is_math m) ng2 = true -> is_brace_arg ng2 = true ->
+  str_eqb (arg_string (tree_arg ng2)) name = true -> cmd_follow [ng2] rest = true ->
+  Reads (fun f => read_env_loop f name args pos skip strict m acc
+                    (flat_list ds ++ e2 :: en :: flat_arg ng2 ++ rest))
+        (Ok (ENamed name args (acc ++ map tree ds) pos, rest)).
+Proof.
+  induction 1 as [|d ds Hd Hds IH];
+    intros name args pos skip strict m acc e2 en ng2 rest Hm Hsk Hwf Hng2 He2 Hen Wng2 Kng2 Hnm Hfol.
+  - (* \end{name} *)
+    destruct (end_facts en Hen) as [Hsig Hsp].
+    assert (Wc : forallb (wf_arg (mode_is_math m)) [ng2] = true)
+      by (cbn [forallb]; rewrite Wng2; reflexivity).
+    assert (Kc : forallb is_brace_arg [ng2] = true)
+      by (cbn [forallb]; rewrite Kng2; reflexivity).
+    destruct (cmd_head_read en [] [ng2] (Forall_nil _) (Forall_cons _ Hng2 (Forall_nil _))
+                strict m rest Hm Hsig Hsp eq_refl eq_refl Wc Kc Hfol) as [f1 F1].
+    destruct ng2 as [sp k o b c].
+    destruct (wf_arg_parts _ _ _ _ _ _ Wng2) as (W1 & W2 & W3 & W4).
+    apply opens_group_kind_spec in W2. destruct W2 as (_ & _ & Ho & _).
+    destruct (Hng2 strict m rest Hm Wng2) as [f2 F2].
+    exists (S (Nat.max f1 f2)). intros f Hf. destruct f as [|f]; [lia|].
+    change (flat_list [] ++ e2 :: en :: flat_arg (Arg sp k o b c) ++ rest)
+      with (e2 :: en :: flat_arg (Arg sp k o b c) ++ rest).
+    simpl map. rewrite app_nil_r.
+    apply (env_loop_end f name args pos skip strict m acc e2 _ (ttext en)
+             (tree_arg (Arg sp k o b c)) [] rest o
+             (arg_inner (Arg sp k o b c) ++ rest) (tree_arg (Arg sp k o b c)) rest He2).
+    + rewrite read_command_skip1.
+      assert (E := F1 f ltac:(lia)). cbv beta in E.
+      unfold flat_args in E. cbn [app map concat] in E. rewrite app_nil_r in E. exact E.
+    + exact Hen.
+    + exact Hnm.
+    + change (skipn 2 (e2 :: en :: flat_arg (Arg sp k o b c) ++ rest))
+        with (flat_arg (Arg sp k o b c) ++ rest).
+      apply arg_after_spacer; assumption.
+    + apply (F2 f). lia.
+  - rewrite seq_wf_cons in Hwf.
+    apply andb_true_iff in Hwf. destruct Hwf as [Hwf H4].
+    apply andb_true_iff in Hwf. destruct Hwf as [Hwf H3].
+    apply andb_true_iff in Hwf. destruct Hwf as [_ H2].
+    set (tail := e2 :: en :: flat_arg ng2 ++ rest) in *.
+    destruct (Hd skip strict m (flat_list ds ++ tail) Hm Hsk H2 H3) as [f1 F1].
+    destruct (IH name args pos skip strict m (acc ++ [tree d]) e2 en ng2 rest
+                 Hm Hsk H4 Hng2 He2 Hen Wng2 Kng2 Hnm Hfol) as [f2 F2].
+    fold tail in F2.
+    exists (S (S (Nat.max f1 f2))). intros f Hf. destruct f as [|f]; [lia|].
+    rewrite flat_list_cons, <- app_assoc.
+    assert (E1 := F1 f ltac:(lia)). cbv beta in E1.
+    destruct (is_tc TEscape (dhead d)) eqn:Ee.
+    + destruct (escape_head_shape _ d H2 Ee) as (n & tl & Htl & Hnend).
+      rewrite Htl in E1 |- *. rewrite <- !app_comm_cons in E1 |- *.
+      destruct f as [|f]; [lia|].
+      destruct (peek_of_read_expr f skip strict m (dhead d) n _ _ Ee E1) as (pa & ps & Hp).
+      assert (Hp' : read_command (S f) (-1) (-1) 1 strict m (dhead d :: n :: tl ++ flat_list ds ++ tail)
+                    = Ok ((ttext n, pa), ps)).
+      { apply (enough_fuel_command f (S f)); [exact Hp | discriminate | lia]. }
+      rewrite (env_loop_step_esc (S f) name args pos skip strict m acc (dhead d) _ _ _ _
+                 Ee Hp' Hnend).
+      rewrite E1. cbn [bind]. rewrite F2 by lia. rewrite <- app_assoc. reflexivity.
+    + destruct (flat_head d) as [tl Htl].
+      rewrite Htl in E1 |- *. rewrite <- !app_comm_cons in E1 |- *.
+      rewrite (env_loop_step_other f name args pos skip strict m acc (dhead d) _ Ee).
+      rewrite E1. cbn [bind]. rewrite F2 by lia. rewrite <- app_assoc. reflexivity.
+Qed.
+
+(* \begin <name group> hands over to the environment loop *)
+Lemma read_expr_begin f skip strict m e b src a0 args' src1 :
+  is_tc TEscape e = true -> mode_is_special m = false ->
+  read_command f (-1) (-1) 0 strict m (b :: src) = Ok ((s_begin, a0 :: args'), src1) ->
+  mem_str (strip (arg_string a0)) Tables.math_env_names = false ->
+  mem_str (strip (arg_string a0)) skip = false ->
+  read_expr (S f) skip strict m (e :: b :: src) =
+  read_env_loop f (strip (arg_string a0)) args' (tpos e) skip strict m [] src1.
+Proof.
+  intros He Hm Hc Hmath Hskip. cbn [read_expr].
+  rewrite (escape_not_math_begin e He), He, Hc. cbn [bind].
+  replace (str_eqb s_begin s_item) with false by (vm_compute; reflexivity).
+  replace (str_eqb s_begin s_begin) with true by (vm_compute; reflexivity).
+  rewrite Hm. cbn [negb andb]. rewrite Hmath, Hskip. reflexivity.
 Qed.
 
 (* ------------------------------------------------------- the induction *)
@@ -984,23 +1263,23 @@ Theorem PP_all : forall d, PPd d.
 Proof.
   apply (doc_ind' PPd PPa).
   - (* leaf *)
-    intros t skip strict m rest Hwf _. exists 1%nat. intros f Hf. destruct f as [|f]; [lia|].
+    intros t skip strict m rest _ _ Hwf _. exists 1%nat. intros f Hf. destruct f as [|f]; [lia|].
     cbn [flat tree app]. apply read_expr_leaf. exact Hwf.
   - (* brace group *)
-    intros o b c Hb skip strict m rest Hwf _. rewrite wf_group in Hwf.
+    intros o b c Hb skip strict m rest _ _ Hwf _. rewrite wf_group in Hwf.
     apply andb_true_iff in Hwf. destruct Hwf as [Hwf H3].
     apply andb_true_iff in Hwf. destruct Hwf as [H1 H2].
-    assert (Wa : wf_arg (Arg None GBrace o b c) = true).
-    { rewrite wf_arg_eq, H2, H3. unfold opens_group_kind.
+    assert (Wa : wf_arg (mode_is_math MNonMath) (Arg None GBrace o b c) = true).
+    { rewrite wf_arg_eq, H2. cbn [mode_is_math]. rewrite H3. unfold opens_group_kind.
       replace (group_tok_begin GBrace) with (Some TGroupBegin) by (vm_compute; reflexivity).
       rewrite H1. reflexivity. }
-    destruct (arg_group None GBrace o b c Hb strict MNonMath rest Wa) as [f1 F1].
+    destruct (arg_group None GBrace o b c Hb strict MNonMath rest eq_refl Wa) as [f1 F1].
     exists (S f1). intros f Hf. destruct f as [|f]; [lia|].
     rewrite flat_group. rewrite <- app_comm_cons.
     rewrite (read_expr_group_open f skip strict m o _ H1).
     apply (F1 f). lia.
   - (* command *)
-    intros e n args Hargs skip strict m rest Hwf Hfol. rewrite wf_cmd in Hwf.
+    intros e n args Hargs skip strict m rest Hm _ Hwf Hfol. rewrite wf_cmd in Hwf.
     apply andb_true_iff in Hwf. destruct Hwf as [Hwf H4].
     apply andb_true_iff in Hwf. destruct Hwf as [Hwf H3].
     apply andb_true_iff in Hwf. destruct Hwf as [H1 H2].
@@ -1008,22 +1287,78 @@ Proof.
     apply Forall_app in Hargs. destruct Hargs as [Hbs Hcs].
     rewrite forallb_app in H4. apply andb_true_iff in H4. destruct H4 as [Wb Wc].
     cbn [follows_ok] in Hfol.
-    destruct (args_read bs cs Hbs Hcs strict m rest Wb Kb Wc Kc Hfol) as [f1 F1].
-    exists (S (S f1)). intros f Hf. destruct f as [|[|f]]; [lia|lia|].
+    destruct (name_ok_parts n H2) as (Hsig & _ & _ & _ & Hsp).
+    destruct (cmd_head_read n bs cs Hbs Hcs strict m rest Hm Hsig Hsp Wb Kb Wc Kc Hfol)
+      as [f1 F1].
+    exists (S f1). intros f Hf. destruct f as [|f]; [lia|].
     rewrite flat_cmd. rewrite <- !app_comm_cons.
     apply (read_expr_plain_cmd f skip strict m e n _ _ rest H1 H2).
     apply F1. lia.
   - (* math region *)
-    intros k o b c Hb skip strict m rest Hwf _. rewrite wf_math in Hwf.
+    intros k o b c Hb skip strict m rest _ _ Hwf _. rewrite wf_math in Hwf.
     apply andb_true_iff in Hwf. destruct Hwf as [Hwf H3].
     apply andb_true_iff in Hwf. destruct Hwf as [H1 H2].
     apply opens_math_kind_spec in H1. destruct H1 as [Hk _].
-    pose proof (seq_wf_ext wf (CMath k) b c rest (math_end_not_spacer k c H2) H3) as H3'.
+    pose proof (seq_wf_ext _ (CMath k) b c [] rest (math_end_not_spacer k c H2) H3) as H3'.
     destruct (seq_math b Hb k (tpos o) strict [] c rest H3' H2) as [f1 F1].
     exists (S f1). intros f Hf. destruct f as [|f]; [lia|].
     rewrite flat_math. rewrite <- app_comm_cons, <- app_assoc. cbn [app].
     rewrite (C12_math_opens f skip strict m o _ k Hk).
     apply F1. lia.
+  - (* environment *)
+    intros e b ng body e2 en ng2 Hng Hbody Hng2 skip strict m rest Hm Hsk Hwf Hfol.
+    rewrite wf_env in Hwf.
+    apply andb_true_iff in Hwf. destruct Hwf as [Hwf W13].
+    apply andb_true_iff in Hwf. destruct Hwf as [Hwf W12].
+    apply andb_true_iff in Hwf. destruct Hwf as [Hwf W11].
+    apply andb_true_iff in Hwf. destruct Hwf as [Hwf W10].
+    apply andb_true_iff in Hwf. destruct Hwf as [Hwf W9].
+    apply andb_true_iff in Hwf. destruct Hwf as [Hwf W8].
+    apply andb_true_iff in Hwf. destruct Hwf as [Hwf W7].
+    apply andb_true_iff in Hwf. destruct Hwf as [Hwf W6].
+    apply andb_true_iff in Hwf. destruct Hwf as [Hwf W5].
+    apply andb_true_iff in Hwf. destruct Hwf as [Hwf W4].
+    apply andb_true_iff in Hwf. destruct Hwf as [Hwf W3].
+    apply andb_true_iff in Hwf. destruct Hwf as [W1 W2].
+    apply negb_true_iff in W5, W6.
+    cbn [follows_ok] in Hfol.
+    destruct (begin_facts b W2) as (Hsig & Hsp & Hb).
+    set (tail := e2 :: en :: flat_arg ng2 ++ rest).
+    assert (Ne2 : is_tc TMergedSpacer e2 = false)
+      by (apply (is_tc_excl _ _ _ W9); discriminate).
+    (* the command part of \begin *)
+    assert (Wc : forallb (wf_arg (mode_is_math m)) [ng] = true)
+      by (cbn [forallb]; rewrite W3; reflexivity).
+    assert (Kc : forallb is_brace_arg [ng] = true)
+      by (cbn [forallb]; rewrite W4; reflexivity).
+    assert (Fb : cmd_follow [ng] (flat_list body ++ tail) = true).
+    { unfold tail. change (e2 :: en :: flat_arg ng2 ++ rest)
+                     with (e2 :: [] ++ (en :: flat_arg ng2 ++ rest)).
+      rewrite <- (cmd_follow_ext [ng] (flat_list body) e2 [] _ Ne2). exact W7. }
+    destruct (cmd_head_read b [] [ng] (Forall_nil _) (Forall_cons _ Hng (Forall_nil _))
+                strict m (flat_list body ++ tail) Hm Hsig Hsp eq_refl eq_refl Wc Kc Fb)
+      as [f1 F1].
+    (* the body and \end *)
+    assert (Wb : seq_wf (wf (mode_is_math m)) CEnv body tail = true).
+    { unfold tail. change (e2 :: en :: flat_arg ng2 ++ rest)
+                     with (e2 :: [en] ++ (flat_arg ng2 ++ rest)).
+      apply seq_wf_ext; [exact Ne2 | exact W8]. }
+    destruct (seq_env body Hbody (env_name ng) [] (tpos e) skip strict m [] e2 en ng2 rest
+                      Hm Hsk Wb Hng2 W9 W10 W11 W12 W13 Hfol) as [f2 F2].
+    fold tail in F2.
+    assert (Hskip : mem_str (env_name ng) skip = false).
+    { destruct (mem_str (env_name ng) skip) eqn:E; [|reflexivity].
+      apply Hsk in E. congruence. }
+    exists (S (Nat.max f1 f2)). intros f Hf. destruct f as [|f]; [lia|].
+    rewrite flat_env. rewrite <- !app_comm_cons.
+    assert (E1 := F1 f ltac:(lia)). cbv beta in E1.
+    unfold flat_args in E1. cbn [app map concat] in E1. rewrite app_nil_r in E1.
+    rewrite Hb in E1.
+    replace ((flat_arg ng ++ flat_list body ++ e2 :: en :: flat_arg ng2) ++ rest)
+      with (flat_arg ng ++ flat_list body ++ tail).
+    2:{ unfold tail. rewrite <- !app_assoc. rewrite <- !app_comm_cons. reflexivity. }
+    rewrite (read_expr_begin f skip strict m e b _ (tree_arg ng) [] _ W1 Hm E1 W5 Hskip).
+    cbn [tree]. apply (F2 f). lia.
   - (* argument group *)
     intros sp k o b c Hb. apply arg_group. exact Hb.
 Qed.
@@ -1035,29 +1370,32 @@ Proof. apply Forall_forall. intros d _. apply PP_all. Qed.
 
 (* one document element, followed by anything its follow condition allows *)
 Theorem PP_expr d skip strict m rest f :
-  wf d = true -> follows_ok d rest = true ->
+  mode_is_special m = false -> sub_skip SK skip ->
+  wf (mode_is_math m) d = true -> follows_ok d rest = true ->
   (3 * length (flat d ++ rest) + 1 <= f)%nat ->
   read_expr f skip strict m (flat d ++ rest) = Ok (tree d, rest).
 Proof.
-  intros Hwf Hfol Hf. destruct (PP_all d skip strict m rest Hwf Hfol) as [f0 F0].
+  intros Hm Hsk Hwf Hfol Hf.
+  destruct (PP_all d skip strict m rest Hm Hsk Hwf Hfol) as [f0 F0].
   apply (fuel_any_expr f0); [apply F0; lia | exact Hf].
 Qed.
 
 (* the body of a group closed by `c` *)
 Theorem PP_seq_group ds k pos strict m acc c rest f :
-  wf_seq (CGroup k) ds (c :: rest) = true -> is_group_end k c = true ->
+  mode_is_special m = false ->
+  wf_seq (mode_is_math m) (CGroup k) ds (c :: rest) = true -> is_group_end k c = true ->
   (3 * length (flat_list ds ++ c :: rest) + 2 <= f)%nat ->
   read_arg_loop f k pos strict m acc (flat_list ds ++ c :: rest)
   = Ok (EGroup k (acc ++ map tree ds) pos, rest).
 Proof.
-  intros Hwf Hc Hf.
-  destruct (seq_group ds (PP_Forall ds) k pos strict m acc c rest Hwf Hc) as [f0 F0].
+  intros Hm Hwf Hc Hf.
+  destruct (seq_group ds (PP_Forall ds) k pos strict m acc c rest Hm Hwf Hc) as [f0 F0].
   apply (fuel_any_argloop f0); [apply F0; lia | exact Hf].
 Qed.
 
 (* the body of a math region closed by `c` *)
 Theorem PP_seq_math ds k pos strict acc c rest f :
-  wf_seq (CMath k) ds (c :: rest) = true -> is_math_end k c = true ->
+  wf_seq true (CMath k) ds (c :: rest) = true -> is_math_end k c = true ->
   (3 * length (flat_list ds ++ c :: rest) + 2 <= f)%nat ->
   read_math_loop f k pos strict acc (flat_list ds ++ c :: rest)
   = Ok (EMath k (acc ++ map tree ds) pos, rest).
@@ -1077,11 +1415,11 @@ Lemma read_tex_loop_step f ef skip strict acc toks :
 Proof. destruct toks; [congruence | reflexivity]. Qed.
 
 Theorem PP_tex_loop ds : forall fuel efuel skip strict acc,
-  wf_seq CTop ds [] = true ->
+  sub_skip SK skip -> wf_seq false CTop ds [] = true ->
   (length (flat_list ds) < fuel)%nat -> (3 * length (flat_list ds) + 1 <= efuel)%nat ->
   read_tex_loop fuel efuel skip strict acc (flat_list ds) = Ok (acc ++ map tree ds).
 Proof.
-  induction ds as [|d ds IH]; intros fuel efuel skip strict acc Hwf Hfu Hef.
+  induction ds as [|d ds IH]; intros fuel efuel skip strict acc Hsk Hwf Hfu Hef.
   - destruct fuel as [|fuel]; [simpl in Hfu; lia|]. simpl. rewrite app_nil_r. reflexivity.
   - unfold wf_seq in Hwf. rewrite seq_wf_cons in Hwf.
     apply andb_true_iff in Hwf. destruct Hwf as [Hwf H4].
@@ -1093,21 +1431,27 @@ Proof.
     destruct fuel as [|fuel]; [lia|].
     rewrite read_tex_loop_step.
     2:{ destruct (flat_head d) as [tl ->]. discriminate. }
-    rewrite (PP_expr d skip strict MNonMath (flat_list ds) efuel H2 H3)
+    rewrite (PP_expr d skip strict MNonMath (flat_list ds) efuel eq_refl Hsk H2 H3)
       by (rewrite app_length; lia).
-    cbn [bind]. rewrite IH; [|exact H4|lia|lia].
+    cbn [bind]. rewrite IH; [|exact Hsk|exact H4|lia|lia].
     rewrite <- app_assoc. reflexivity.
 Qed.
 
+End WithSkip.
+
+Lemma sub_skip_refl SK : sub_skip SK SK.
+Proof. intros n H. exact H. Qed.
+
 (* PP, top level: the token list of a well-formed document sequence parses
-   to exactly the expected trees, in both tolerance modes and whatever the
-   user's skip list *)
+   to exactly the expected trees, in both tolerance modes; the environment
+   names must not be among the verbatim names (built-in or user's) *)
 Theorem PP_parse_tokens ds strict user :
-  wf_seq CTop ds [] = true ->
+  wf_seq (all_skip user) false CTop ds [] = true ->
   parse_tokens (flat_list ds) strict user = Ok (ERoot (map tree ds)).
 Proof.
   intro Hwf. unfold parse_tokens, fuel_for.
-  rewrite (PP_tex_loop ds _ _ _ strict [] Hwf) by lia. reflexivity.
+  rewrite (PP_tex_loop (all_skip user) ds _ _ _ strict [] (sub_skip_refl _) Hwf) by lia.
+  reflexivity.
 Qed.
 
 (* ====================================================================== *)
@@ -1121,17 +1465,24 @@ Fixpoint printable (d : doc) : bool :=
   | DGroup _ b _ => forallb printable b
   | DCmd _ n args => str_eqb (strip (ttext n)) (ttext n) && forallb printable_arg args
   | DMath _ _ b _ => forallb printable b
+  | DEnv _ _ ng body _ _ ng2 =>
+    printable_arg ng && printable_arg ng2 &&
+    str_eqb (strip (arg_string (tree_arg ng))) (arg_string (tree_arg ng)) &&
+    forallb printable body
   end
 with printable_arg (a : arg) : bool :=
   match a with
   | Arg sp _ _ b _ => match sp with None => true | Some _ => false end && forallb printable b
   end.
 
-Definition estr_d (d : doc) : Prop :=
-  wf d = true -> printable d = true -> Forall tok_wf (flat d) ->
+Section Print.
+Variable SK : list str.
+
+Definition estr_d (d : doc) : Prop := forall mm,
+  wf SK mm d = true -> printable d = true -> Forall tok_wf (flat d) ->
   estr (tree d) = texts (flat d).
-Definition estr_a (a : arg) : Prop :=
-  wf_arg a = true -> printable_arg a = true -> Forall tok_wf (flat_arg a) ->
+Definition estr_a (a : arg) : Prop := forall mm,
+  wf_arg SK mm a = true -> printable_arg a = true -> Forall tok_wf (flat_arg a) ->
   estr (tree_arg a) = texts (flat_arg a).
 
 Lemma texts_cons t l : texts (t :: l) = ttext t ++ texts l.
@@ -1139,8 +1490,9 @@ Proof. reflexivity. Qed.
 Lemma texts_one t : texts [t] = ttext t.
 Proof. unfold texts. simpl. apply app_nil_r. Qed.
 
-Lemma estr_body x b : Forall estr_d b -> forall r,
-  seq_wf wf x b r = true -> forallb printable b = true -> Forall tok_wf (flat_list b) ->
+Lemma estr_body mm x b : Forall estr_d b -> forall r,
+  seq_wf (wf SK mm) x b r = true -> forallb printable b = true ->
+  Forall tok_wf (flat_list b) ->
   concat (map estr (map tree b)) = texts (flat_list b).
 Proof.
   intros Hb r. induction Hb as [|d b Hd _ IH]; intros Hwf Hp Ht; [reflexivity|].
@@ -1150,7 +1502,7 @@ Proof.
   apply andb_true_iff in Hwf. destruct Hwf as [_ H2].
   cbn [forallb] in Hp. apply andb_true_iff in Hp. destruct Hp as [Hp1 Hp2].
   rewrite flat_list_cons in Ht |- *. apply Forall_app in Ht. destruct Ht as [Ht1 Ht2].
-  cbn [map concat]. rewrite texts_app, (Hd H2 Hp1 Ht1), (IH H4 Hp2 Ht2). reflexivity.
+  cbn [map concat]. rewrite texts_app, (Hd mm H2 Hp1 Ht1), (IH H4 Hp2 Ht2). reflexivity.
 Qed.
 
 Lemma tok_wf_group_begin o k :
@@ -1170,8 +1522,8 @@ Proof. intros (_ & _ & _ & _ & H) E. apply H. apply is_tc_true. exact E. Qed.
 
 Lemma estr_arg_group sp k o b c : Forall estr_d b -> estr_a (Arg sp k o b c).
 Proof.
-  intros Hb Hwf Hp Ht.
-  destruct (wf_arg_parts _ _ _ _ _ Hwf) as (W1 & W2 & W3 & W4).
+  intros Hb mm Hwf Hp Ht.
+  destruct (wf_arg_parts _ _ _ _ _ _ _ Hwf) as (W1 & W2 & W3 & W4).
   apply opens_group_kind_spec in W2. destruct W2 as (_ & Hk & _).
   cbn [printable_arg] in Hp. apply andb_true_iff in Hp. destruct Hp as [Hsp Hp].
   destruct sp as [s|]; [discriminate Hsp|].
@@ -1179,25 +1531,33 @@ Proof.
   inversion Ht as [|? ? To Ht']; subst. apply Forall_app in Ht'. destruct Ht' as [Tb Tc].
   inversion Tc as [|? ? Tc' _]; subst.
   cbn [tree_arg estr]. rewrite texts_cons, texts_app, texts_one.
-  rewrite (estr_body (CGroup k) b Hb [c] W4 Hp Tb).
+  rewrite (estr_body mm (CGroup k) b Hb [c] W4 Hp Tb).
   rewrite (tok_wf_group_begin o k To Hk), (tok_wf_group_end c k Tc' W3).
   reflexivity.
+Qed.
+
+(* a brace argument prints as  { <its string> } *)
+Lemma estr_brace_arg a : is_brace_arg a = true ->
+  estr (tree_arg a) = [123%N] ++ arg_string (tree_arg a) ++ [125%N].
+Proof.
+  destruct a as [sp k o b c]. unfold is_brace_arg. cbn [arg_kind]. intro H.
+  apply groupkind_eqb_eq in H. subst k. reflexivity.
 Qed.
 
 Theorem estr_tree_all : forall d, estr_d d.
 Proof.
   apply (doc_ind' estr_d estr_a).
-  - intros t _ _ _. cbn [tree estr flat]. rewrite texts_one. reflexivity.
-  - intros o b c Hb Hwf Hp Ht.
-    assert (Wa : wf_arg (Arg None GBrace o b c) = true).
+  - intros t mm _ _ _. cbn [tree estr flat]. rewrite texts_one. reflexivity.
+  - intros o b c Hb mm Hwf Hp Ht.
+    assert (Wa : wf_arg SK false (Arg None GBrace o b c) = true).
     { rewrite wf_group in Hwf. rewrite wf_arg_eq.
       apply andb_true_iff in Hwf. destruct Hwf as [Hwf H3].
       apply andb_true_iff in Hwf. destruct Hwf as [H1 H2].
       rewrite H2, H3. unfold opens_group_kind.
       replace (group_tok_begin GBrace) with (Some TGroupBegin) by (vm_compute; reflexivity).
       rewrite H1. reflexivity. }
-    exact (estr_arg_group None GBrace o b c Hb Wa Hp Ht).
-  - intros e n args Hargs Hwf Hp Ht. rewrite wf_cmd in Hwf.
+    exact (estr_arg_group None GBrace o b c Hb false Wa Hp Ht).
+  - intros e n args Hargs mm Hwf Hp Ht. rewrite wf_cmd in Hwf.
     apply andb_true_iff in Hwf. destruct Hwf as [Hwf H4].
     apply andb_true_iff in Hwf. destruct Hwf as [Hwf _].
     apply andb_true_iff in Hwf. destruct Hwf as [H1 _].
@@ -1213,8 +1573,8 @@ Proof.
     apply andb_true_iff in H4. destruct H4 as [W1 W2].
     apply andb_true_iff in Hp. destruct Hp as [P1 P2].
     rewrite flat_args_cons in Ta |- *. apply Forall_app in Ta. destruct Ta as [T1 T2].
-    cbn [map concat]. rewrite texts_app, (Ha W1 P1 T1), (IH W2 P2 T2). reflexivity.
-  - intros k o b c Hb Hwf Hp Ht. rewrite wf_math in Hwf.
+    cbn [map concat]. rewrite texts_app, (Ha mm W1 P1 T1), (IH W2 P2 T2). reflexivity.
+  - intros k o b c Hb mm Hwf Hp Ht. rewrite wf_math in Hwf.
     apply andb_true_iff in Hwf. destruct Hwf as [Hwf H3].
     apply andb_true_iff in Hwf. destruct Hwf as [H1 H2].
     apply opens_math_kind_spec in H1. destruct H1 as [_ Hk].
@@ -1223,198 +1583,72 @@ Proof.
     inversion Ht as [|? ? To Ht']; subst. apply Forall_app in Ht'. destruct Ht' as [Tb Tc].
     inversion Tc as [|? ? Tc' _]; subst.
     cbn [tree estr]. rewrite texts_cons, texts_app, texts_one.
-    rewrite (estr_body (CMath k) b Hb [c] H3 Hp Tb).
+    rewrite (estr_body true (CMath k) b Hb [c] H3 Hp Tb).
     rewrite (tok_wf_math_begin o k To Hk), (tok_wf_math_end c k Tc' H2).
     reflexivity.
+  - (* environment *)
+    intros e b ng body e2 en ng2 Hng Hbody Hng2 mm Hwf Hp Ht.
+    rewrite wf_env in Hwf.
+    apply andb_true_iff in Hwf. destruct Hwf as [Hwf W13].
+    apply andb_true_iff in Hwf. destruct Hwf as [Hwf W12].
+    apply andb_true_iff in Hwf. destruct Hwf as [Hwf W11].
+    apply andb_true_iff in Hwf. destruct Hwf as [Hwf W10].
+    apply andb_true_iff in Hwf. destruct Hwf as [Hwf W9].
+    apply andb_true_iff in Hwf. destruct Hwf as [Hwf W8].
+    apply andb_true_iff in Hwf. destruct Hwf as [Hwf W7].
+    apply andb_true_iff in Hwf. destruct Hwf as [Hwf W6].
+    apply andb_true_iff in Hwf. destruct Hwf as [Hwf W5].
+    apply andb_true_iff in Hwf. destruct Hwf as [Hwf W4].
+    apply andb_true_iff in Hwf. destruct Hwf as [Hwf W3].
+    apply andb_true_iff in Hwf. destruct Hwf as [W1 W2].
+    apply str_eqb_eq in W2, W10, W13.
+    cbn [printable] in Hp.
+    apply andb_true_iff in Hp. destruct Hp as [Hp P4].
+    apply andb_true_iff in Hp. destruct Hp as [Hp P3].
+    apply andb_true_iff in Hp. destruct Hp as [P1 P2].
+    apply str_eqb_eq in P3.
+    rewrite flat_env in Ht |- *.
+    inversion Ht as [|? ? Te Ht1]; subst. inversion Ht1 as [|? ? _ Ht2]; subst.
+    apply Forall_app in Ht2. destruct Ht2 as [Tng Ht3].
+    apply Forall_app in Ht3. destruct Ht3 as [Tbody Ht4].
+    inversion Ht4 as [|? ? Te2 Ht5]; subst. inversion Ht5 as [|? ? _ Tng2]; subst.
+    rewrite !texts_cons, !texts_app, !texts_cons.
+    rewrite <- (Hng mm W3 P1 Tng), <- (Hng2 mm W11 P2 Tng2).
+    rewrite <- (estr_body mm CEnv body Hbody [e2; en] W8 P4 Tbody).
+    rewrite (estr_brace_arg ng W4), (estr_brace_arg ng2 W12).
+    rewrite (tok_wf_escape e Te W1), (tok_wf_escape e2 Te2 W9), W2, W10, W13.
+    unfold env_name. rewrite P3.
+    cbn [tree estr map concat]. unfold env_begin, env_end.
+    change s_begin_open with ([backslash] ++ s_begin ++ [123%N]).
+    change s_end_open with ([backslash] ++ s_end ++ [123%N]).
+    change s_close with [125%N].
+    rewrite <- !app_assoc. cbn [app]. reflexivity.
   - intros sp k o b c Hb. apply estr_arg_group. exact Hb.
 Qed.
 
-Theorem estr_tree d :
-  wf d = true -> printable d = true -> Forall tok_wf (flat d) ->
+Theorem estr_tree mm d :
+  wf SK mm d = true -> printable d = true -> Forall tok_wf (flat d) ->
   estr (tree d) = texts (flat d).
 Proof. apply estr_tree_all. Qed.
 
-Theorem estr_tree_list x ds r :
-  wf_seq x ds r = true -> forallb printable ds = true -> Forall tok_wf (flat_list ds) ->
+Theorem estr_tree_list mm x ds r :
+  wf_seq SK mm x ds r = true -> forallb printable ds = true -> Forall tok_wf (flat_list ds) ->
   estr (ERoot (map tree ds)) = texts (flat_list ds).
 Proof.
   intros Hwf Hp Ht. cbn [estr].
   assert (Hb : Forall estr_d ds) by (apply Forall_forall; intros d _; apply estr_tree_all).
-  exact (estr_body x ds Hb r Hwf Hp Ht).
+  exact (estr_body mm x ds Hb r Hwf Hp Ht).
 Qed.
+
+End Print.
 
 (* print o parse o print *)
 Theorem PP_print_parse_print ds strict user :
-  wf_seq CTop ds [] = true -> forallb printable ds = true -> Forall tok_wf (flat_list ds) ->
+  wf_seq (all_skip user) false CTop ds [] = true -> forallb printable ds = true ->
+  Forall tok_wf (flat_list ds) ->
   exists t, parse_tokens (flat_list ds) strict user = Ok t /\ estr t = texts (flat_list ds).
 Proof.
   intros Hwf Hp Ht. exists (ERoot (map tree ds)). split.
   - apply PP_parse_tokens. exact Hwf.
   - eapply estr_tree_list; eassumption.
-Qed.
-
-(* ====================================================================== *)
-(* Non-vacuity: concrete documents built from real tokenizer output       *)
-(* ====================================================================== *)
-
-Definition tok0 : token := mkt [] 0%Z TText.
-
-(* \a[x]{y \b{z}} {g $m_1$} t *)
-Definition ex1_src : str :=
-  [92;97;91;120;93;123;121;32;92;98;123;122;125;125;32;123;103;32;36;109;95;49;36;125;32;116]%N.
-Definition ex1_toks : list token := fst (tokens_of_string ex1_src).
-Definition ex1_doc : list doc :=
-  let t i := nth i ex1_toks tok0 in
-  [ DCmd (t 0%nat) (t 1%nat)
-      [ Arg None GBracket (t 2%nat) [DLeaf (t 3%nat)] (t 4%nat);
-        Arg None GBrace (t 5%nat)
-            [ DLeaf (t 6%nat);
-              DCmd (t 7%nat) (t 8%nat)
-                   [Arg None GBrace (t 9%nat) [DLeaf (t 10%nat)] (t 11%nat)] ]
-            (t 12%nat);
-        Arg (Some (t 13%nat)) GBrace (t 14%nat)
-            [ DLeaf (t 15%nat);
-              DMath MInline (t 16%nat) [DLeaf (t 17%nat)] (t 18%nat) ]
-            (t 19%nat) ];
-    DLeaf (t 20%nat) ].
-
-(* {a {b $c$}} \d[e]{f}g   -- printable: no spacer before an argument *)
-Definition ex2_src : str :=
-  [123;97;32;123;98;32;36;99;36;125;125;32;92;100;91;101;93;123;102;125;103]%N.
-Definition ex2_toks : list token := fst (tokens_of_string ex2_src).
-Definition ex2_doc : list doc :=
-  let t i := nth i ex2_toks tok0 in
-  [ DGroup (t 0%nat)
-      [ DLeaf (t 1%nat);
-        DGroup (t 2%nat)
-          [ DLeaf (t 3%nat); DMath MInline (t 4%nat) [DLeaf (t 5%nat)] (t 6%nat) ]
-          (t 7%nat) ]
-      (t 8%nat);
-    DLeaf (t 9%nat);
-    DCmd (t 10%nat) (t 11%nat)
-      [ Arg None GBracket (t 12%nat) [DLeaf (t 13%nat)] (t 14%nat);
-        Arg None GBrace (t 15%nat) [DLeaf (t 16%nat)] (t 17%nat) ];
-    DLeaf (t 18%nat) ].
-
-(* boolean form of tok_wf on the delimiters, for the examples *)
-Definition tok_wfb (t : token) : bool :=
-  forallb (fun k => match group_tok_begin k with
-                    | Some b => negb (tc_beq b (tcat t)) || str_eqb (ttext t) (group_begin k)
-                    | None => true end) [GBrace; GBracket] &&
-  forallb (fun k => match group_tok_end k with
-                    | Some b => negb (tc_beq b (tcat t)) || str_eqb (ttext t) (group_end k)
-                    | None => true end) [GBrace; GBracket] &&
-  forallb (fun k => match math_tok_begin k with
-                    | Some b => negb (tc_beq b (tcat t)) || str_eqb (ttext t) (math_begin k)
-                    | None => true end) [MInline; MDisplay; MParen; MBracket] &&
-  forallb (fun k => match math_tok_end k with
-                    | Some b => negb (tc_beq b (tcat t)) || str_eqb (ttext t) (math_end k)
-                    | None => true end) [MInline; MDisplay; MParen; MBracket] &&
-  (negb (tc_beq (tcat t) TEscape) || str_eqb (ttext t) [backslash]).
-
-Lemma tok_wfb_sound t : tok_wfb t = true -> tok_wf t.
-Proof.
-  unfold tok_wfb. intro H.
-  apply andb_true_iff in H. destruct H as [H H5].
-  apply andb_true_iff in H. destruct H as [H H4].
-  apply andb_true_iff in H. destruct H as [H H3].
-  apply andb_true_iff in H. destruct H as [H1 H2].
-  rewrite forallb_forall in H1, H2, H3, H4.
-  assert (Hor : forall (a : tc) s s', negb (tc_beq a (tcat t)) || str_eqb s s' = true ->
-                                      a = tcat t -> s = s').
-  { intros a s s' Ho E. apply orb_true_iff in Ho. destruct Ho as [Ho|Ho].
-    - apply negb_true_iff in Ho. subst a.
-      assert (X : tc_beq (tcat t) (tcat t) = true) by (apply tc_eqb_eq; reflexivity).
-      congruence.
-    - apply str_eqb_eq. exact Ho. }
-  repeat split.
-  - intros k E. assert (I : In k [GBrace; GBracket]) by (destruct k; simpl; auto).
-    specialize (H1 k I). rewrite E in H1. apply (Hor _ _ _ H1 eq_refl).
-  - intros k E. assert (I : In k [GBrace; GBracket]) by (destruct k; simpl; auto).
-    specialize (H2 k I). rewrite E in H2. apply (Hor _ _ _ H2 eq_refl).
-  - intros k E. assert (I : In k [MInline; MDisplay; MParen; MBracket])
-      by (destruct k; simpl; auto).
-    specialize (H3 k I). rewrite E in H3. apply (Hor _ _ _ H3 eq_refl).
-  - intros k E. assert (I : In k [MInline; MDisplay; MParen; MBracket])
-      by (destruct k; simpl; auto).
-    specialize (H4 k I). rewrite E in H4. apply (Hor _ _ _ H4 eq_refl).
-  - intro E. apply orb_true_iff in H5. destruct H5 as [H5|H5].
-    + apply negb_true_iff in H5. rewrite E in H5. discriminate H5.
-    + apply str_eqb_eq. exact H5.
-Qed.
-
-Lemma tok_wfb_all l : forallb tok_wfb l = true -> Forall tok_wf l.
-Proof.
-  intro H. rewrite forallb_forall in H. apply Forall_forall. intros t Ht.
-  apply tok_wfb_sound. apply H. exact Ht.
-Qed.
-
-Example ex1_is_tokenizer_output :
-  flat_list ex1_doc = fst (tokens_of_string ex1_src) /\ snd (tokens_of_string ex1_src) = TEnd.
-Proof. split; vm_compute; reflexivity. Qed.
-Example ex1_wf : wf_seq CTop ex1_doc [] = true.
-Proof. vm_compute. reflexivity. Qed.
-Example ex2_is_tokenizer_output :
-  flat_list ex2_doc = fst (tokens_of_string ex2_src) /\ snd (tokens_of_string ex2_src) = TEnd.
-Proof. split; vm_compute; reflexivity. Qed.
-Example ex2_wf :
-  wf_seq CTop ex2_doc [] = true /\ forallb printable ex2_doc = true /\
-  forallb tok_wfb (flat_list ex2_doc) = true.
-Proof. repeat split; vm_compute; reflexivity. Qed.
-
-(* the hypotheses of PP_expr / PP_seq_group / PP_seq_math on pieces of ex1 *)
-Example ex_PP_expr_hyps :
-  match ex1_doc with
-  | d :: ds => wf d = true /\ follows_ok d (flat_list ds) = true
-  | [] => False
-  end.
-Proof. split; vm_compute; reflexivity. Qed.
-Example ex_PP_seq_group_hyps :
-  let t i := nth i ex1_toks tok0 in
-  wf_seq (CGroup GBrace)
-         [DLeaf (t 6%nat); DCmd (t 7%nat) (t 8%nat)
-                                [Arg None GBrace (t 9%nat) [DLeaf (t 10%nat)] (t 11%nat)]]
-         (t 12%nat :: skipn 13 ex1_toks) = true /\
-  is_group_end GBrace (t 12%nat) = true.
-Proof. split; vm_compute; reflexivity. Qed.
-Example ex_PP_seq_math_hyps :
-  let t i := nth i ex1_toks tok0 in
-  wf_seq (CMath MInline) [DLeaf (t 17%nat)] (t 18%nat :: skipn 19 ex1_toks) = true /\
-  is_math_end MInline (t 18%nat) = true.
-Proof. split; vm_compute; reflexivity. Qed.
-
-(* the conditions are forced: dropping the follow condition makes the
-   statement false.  `\a{x}` read as "command without arguments, then a brace
-   group": the reader attaches the group.  `\a{x}[y]` read as "command with
-   one brace argument, then three text leaves": the second pass attaches the
-   bracket group. *)
-Definition bad1_src : str := [92;97;123;120;125]%N.                 (* \a{x} *)
-Definition bad1_doc : list doc :=
-  let t i := nth i (fst (tokens_of_string bad1_src)) tok0 in
-  [ DCmd (t 0%nat) (t 1%nat) []; DGroup (t 2%nat) [DLeaf (t 3%nat)] (t 4%nat) ].
-Definition bad2_src : str := [92;97;123;120;125;91;121;93]%N.       (* \a{x}[y] *)
-Definition bad2_doc : list doc :=
-  let t i := nth i (fst (tokens_of_string bad2_src)) tok0 in
-  [ DCmd (t 0%nat) (t 1%nat) [Arg None GBrace (t 2%nat) [DLeaf (t 3%nat)] (t 4%nat)];
-    DLeaf (t 5%nat); DLeaf (t 6%nat); DLeaf (t 7%nat) ].
-
-Theorem PP_without_follow_refuted :
-  exists ds, forallb wf ds = true /\
-             parse_tokens (flat_list ds) true [] <> Ok (ERoot (map tree ds)).
-Proof. exists bad1_doc. split; [vm_compute; reflexivity | vm_compute; discriminate]. Qed.
-
-(* the brace loop did stop after `{x}` (the next token is not `{`), and still
-   the expected tree is not what is read: the follow condition must also
-   exclude a `[` directly after the last brace argument *)
-Theorem PP_first_pass_follow_only_refuted :
-  exists e n args ds,
-    wf (DCmd e n args) = true /\ forallb wf ds = true /\
-    existsb is_brace_arg args = true /\ stopsb TGroupBegin (flat_list ds) = true /\
-    parse_tokens (flat_list (DCmd e n args :: ds)) true []
-    <> Ok (ERoot (map tree (DCmd e n args :: ds))).
-Proof.
-  pose (t i := nth i (fst (tokens_of_string bad2_src)) tok0).
-  exists (t 0%nat), (t 1%nat), [Arg None GBrace (t 2%nat) [DLeaf (t 3%nat)] (t 4%nat)],
-         [DLeaf (t 5%nat); DLeaf (t 6%nat); DLeaf (t 7%nat)].
-  repeat split; try (vm_compute; reflexivity). vm_compute. discriminate.
 Qed.
